@@ -210,7 +210,7 @@ func (m *Machine) execFrom(fr *Frame, b *ssa.BasicBlock, prev *ssa.BasicBlock) V
 				}
 			}
 			if n > m.cfg.LoopBound {
-				if m.cfg.Opts["unwind"] == "violation" && m.meta(fr.fn).inRepo && !strings.Contains(fr.fn.Name(), "zz") {
+				if m.cfg.Opts["unwind"] != "abort" && m.meta(fr.fn).inRepo && !strings.Contains(fr.fn.Name(), "zz") {
 					// unwind=violation: the unwinding bound is the property (a loop of the code under
 					// test that takes more than LoopBound iterations is a hang); confirmed natively
 					// when the replay is still running at its deadline
